@@ -156,9 +156,9 @@ def FUNCTIONS():
 
 
 BOUNDS = {'programs': 'P0: one main phase; P1: PhaseGroup(setup [s], main [m1, m2], teardown [t1, t2]) followed by phase `after`; P2: PhaseGroup(main [m1], teardown [t1, PhaseGroup(setup [t2], main [t3], teardown [t4])])',
-          'aborts': 'the first abort starts at a symbolic global step 0..330 (runs are <= ~310 steps: every statement of the run is a candidate, plus abort after the run finished); optional second abort 0..60 (quick) / 0..90 (thorough) steps later',
+          'aborts': 'the first abort starts at a symbolic global step 0..335 (runs are <= ~310 steps: every statement of the run is a candidate, plus abort after the run finished); optional second abort 0..60 (quick) / 0..90 (thorough) steps later',
           'schedule': 'one additional preemption within 25 steps after the abort start (executor <-> aborter); otherwise a thread runs until it blocks',
-          'bodies': 'each of the main / teardown phases: prompt, long-running but killable, or ignoring the first kill (abandoned after cancel_timeout_s)'}
+          'bodies': 'main phase m1 and teardown phase t1 (t2 too under two aborts): prompt, long-running but killable, or ignoring the first kill (abandoned after cancel_timeout_s); quick tier: (prompt, prompt) and (killable, killable) for one abort, (killable, prompt) and (killable, killable) for two; thorough: all nine / five combinations'}
 STUBS = ['cooperative primitives + virtual time (vlib/seqz)', 'async_raise delivers at the next step of the target coroutine',
          'phase bodies are coroutines (PhaseDescriptor.__call__ / plug injection bypassed)', 'TestState/PlugManager/records are the real objects, called atomically',
          'logging disabled; FakeClock for record timestamps']
